@@ -1216,7 +1216,8 @@ def array_to_groups_and_locations(
         # groups here are the strings; need to restore to values
         groups = array[group_index]
 
-    return groups, locations
+    # NOTE: NumPy 2 can return the inverse with the shape of the input when axis is None
+    return groups, locations.reshape(-1)
 
 
 def isna_element(value: tp.Any) -> bool:
